@@ -202,7 +202,7 @@ PROPS = {
   "level": "exploration",
   "technique": "shape-invariant scan after every step; brute-force order contracts for all cells/halffaces/halfedges; all TetTopology constructors and all 12+24 labels checked against the scan; collapse_edge against an id-space model with orientation parity, link condition decided by brute force",
   "parts": [
-    {"name": "dbg", "flavor": "asan-dbg", "monitor": "C15", "cases": {"quick": 800, "thorough": 12000}},
+    {"name": "dbg", "flavor": "asan-dbg", "monitor": "C15", "cases": {"quick": 800, "thorough": 8000}},
   ],
   "nontrivial": {"fn": lambda js: cnt(js, "tet.cells-checked") >= 10 and cnt(js, "tet.labelings") >= 20,
                  "text": "case = tet complex (fans around edges, tets glued on faces/edges/vertices, boundary) in one of the four deletion modes; history mixing collapse_edge on brute-force-collapsible halfedges (link condition in the complex of all live simplices; clean complexes only), add_cell by 4 vertices (both overloads, topology check on/off), engine mutations (delete/swap/gc/mode switches). After every step: faces have 3 edges, cells 4 faces/4 distinct vertices; periodically: get_cell_vertices (4 forms), halfface_opposite_vertex/vertex_opposite_halfface inverse, tv_iter, every TetTopology constructor with all 12 (halfface,start) choices x 2 + per-vertex + default, 12 halfedge and 24 halfface labels, get_label inverses, TriangleTopology. collapse: expected cells = former cells not containing both ends with a->b, same orientation parity; returned handle must carry b's id; vertex and cell property values follow. non-trivial = >=10 cells and >=20 labelings checked; distinct by operation digest"},
@@ -226,11 +226,11 @@ PROPS = {
   "level": "fault_enumeration",
   "technique": "per generated file: EVERY truncation length, boundary-value substitution of every header / sub-header byte (judged when an independent decoder of the format description rejects the result), every chunk dropped / duplicated / pair swapped, input stream failing at every byte (short read and throwing), output stream failing after every byte count",
   "parts": [
-    {"name": "rel", "flavor": "asan-rel", "monitor": "C18", "cases": {"quick": 60, "thorough": 1500}, "case_timeout": 900},
+    {"name": "rel", "flavor": "asan-rel", "monitor": "C18", "cases": {"quick": 60, "thorough": 160}, "case_timeout": 1800},
   ],
   "nontrivial": {"fn": lambda js: cnt(js, "c18.truncations") >= 48 and cnt(js, "c18.faults") >= 200,
                  "text": "case = one valid OVMB file produced by the writer from a generated poly/tet/hex mesh with 1-4 persistent properties (few hundred bytes to a few KiB). Faults enumerated per file: (a) all prefixes 0..size-1; (b) every byte of the file header, of every chunk header, of the VERT/TOPO/PROP sub-headers, the first DIRP bytes, all padding bytes and some payload bytes replaced by 15 boundary values (quick: 260 sampled positions; thorough: all) - a mutant is judged only if the independent ksy-based decoder rejects it (i.e. it is inconsistent by the published description); (c) every chunk dropped, every chunk duplicated, every pair of chunks swapped, an unknown mandatory chunk spliced in; (c2) 16 (thorough 60) re-encodings of the same content by the independent encoder with arrays split over several chunks and (mostly exactly one) inconsistency whose payload matches its declared count - a span that overlaps / overshoots / leaves a gap / is repeated / out of order, or a sub-header contradicting its payload layout - judged like (b); (d) the input stream stops delivering at byte k (short read / exception) for every k (quick: ~150 positions per file); (e) the output stream accepts only k bytes for every k. Every judged fault must yield a result other than Ok. non-trivial = >=48 truncations and >=200 judged faults in the case; distinct by file digest"},
-  "floor": {"quick": 30, "thorough": 800},
+  "floor": {"quick": 30, "thorough": 100},
   "min_counts": {"c18.truncations": 20000, "c18.substitutions": 50000, "c18.chunk-edits": 1000, "c18.read-faults": 5000, "c18.write-faults": 3000, "c18.span-edits": 300},
   "assumptions": COMMON_ASSUME + ["a mutated file is called inconsistent only when the reference decoder (harness/ovmb_ref.hh, from ovmb.ksy + documentation) rejects it; compression and file_version bytes are not judged"],
  },
